@@ -428,6 +428,14 @@ def _judge_applied(prog: Program, S: Summaries, it: Interp, hv: HeapView, arg: i
     rec["value"] = _judge_value(tb, ta, subst, ok, cons, it)
     rec["links"] = _audit_links(it, hv, at)
     rec["attach"] = _audit_attach(it, hv, bt, at, arg)
+    if res != arg and not any(e[0] == "clone_from_root" for e in it.events):
+        # the change's result takes the place of the matched node: when that node was the root, the result is a root
+        p0, _ = hv.get(arg, "parent", "entry")
+        p1, _ = hv.get(res, "parent", "cur")
+        if p0 is None and isinstance(p1, Node):
+            rec["attach"] = rec["attach"] + [{"what": "the matched node was the root but the result has a parent (result.get_root() "
+                                                      "is not the result: the discarded node is still above it)",
+                                              "result": hv.shape(res, "cur"), "parent": hv.shape(p1.cid, "cur")}]
     rec["relevant"] = _audit_relevant(tb, ta)
     rec["closure"] = _audit_closure(it, hv, at)
     rec["context"] = _audit_context(it, hv, bt)
@@ -507,7 +515,7 @@ def _judge_value(tb, ta, subst, ok, cons, it: Interp) -> dict:
             return {"verdict": "differ", "equation": True,
                     "why": "an equation was replaced by a non-equation (or vice versa)"}
         if any(_contains_eq(x) for x in (tb[1], tb[2], ta[1], ta[2])):
-            return _judge_chain(tb, ta, subst)
+            return _judge_chain(tb, ta, subst, ok)
         d1 = ("sub", tb[1], tb[2])
         d2 = ("sub", ta[1], ta[2])
         try:
@@ -565,7 +573,7 @@ def _chain_sides(t) -> Optional[List[tuple]]:
     return None if _contains_eq(t) else [t]
 
 
-def _judge_chain(tb, ta, subst) -> dict:
+def _judge_chain(tb, ta, subst, ok=None) -> dict:
     """a = b = c holds where all its sides are equal.  Decided here: the result has the same sides up to order, each with
     the same value (a rewrite inside one side, a swap of sides)."""
     sb, sa_ = _chain_sides(tb), _chain_sides(ta)
@@ -578,6 +586,7 @@ def _judge_chain(tb, ta, subst) -> dict:
     if len(sb) != len(sa_):
         return {"verdict": "undecided", "equation": True, "why": f"chain of {len(sb)} sides became a chain of {len(sa_)}"}
     left = list(sa_)
+    missing = None
     for x in sb:
         hit = None
         for i, y in enumerate(left):
@@ -588,10 +597,120 @@ def _judge_chain(tb, ta, subst) -> dict:
             except Exception:  # pragma: no cover
                 continue
         if hit is None:
-            return {"verdict": "undecided", "equation": True,
-                    "why": f"chained equation: no side of the result has the value of the side {_tstr(x)}"}
+            missing = x
+            break
         left.pop(hit)
-    return {"verdict": "equal", "equation": True, "unit": "chain: same sides"}
+    if missing is None:
+        return {"verdict": "equal", "equation": True, "unit": "chain: same sides"}
+    lin = _chain_linear(sb, sa_, subst, ok)
+    if lin is not None:
+        return lin
+    return {"verdict": "undecided", "equation": True,
+            "why": f"chained equation: no side of the result has the value of the side {_tstr(missing)}"}
+
+
+def _chain_linear(sb, sa_, subst, ok) -> Optional[dict]:
+    """Both chains as systems of linear equations (differences of adjacent sides) in independent unknowns - opaque
+    subtrees, variables, constant symbols: the solution sets are equal iff each system's rows are rational combinations
+    of the other's; otherwise a point of one that is not a point of the other is the witness.  None when a difference is
+    not linear."""
+    from fractions import Fraction
+
+    def rows(sides):
+        out = []
+        for x, y in zip(sides, sides[1:]):
+            out.append(A.normalize(("sub", x, y), subst))
+        return out
+    try:
+        D, E = rows(sb), rows(sa_)
+    except Exception:  # pragma: no cover
+        return None
+    coords: List[tuple] = []
+    for nf in D + E:
+        for m in nf:
+            if m == ():
+                continue
+            if not (len(m) == 1 and m[0][0][0] in ("sym", "atom") and m[0][1] == A.ONE_EXP):
+                return None
+            if m not in coords:
+                coords.append(m)
+    coords.append(())
+
+    def vec(nf):
+        return [Fraction(nf.get(m, 0)) for m in coords]
+
+    def nullspace(M):
+        M = [r[:] for r in M]
+        n = len(coords)
+        piv = []
+        r = 0
+        for c in range(n):
+            k = next((i for i in range(r, len(M)) if M[i][c] != 0), None)
+            if k is None:
+                continue
+            M[r], M[k] = M[k], M[r]
+            pv = M[r][c]
+            M[r] = [x / pv for x in M[r]]
+            for i in range(len(M)):
+                if i != r and M[i][c] != 0:
+                    f = M[i][c]
+                    M[i] = [a - f * b for a, b in zip(M[i], M[r])]
+            piv.append(c)
+            r += 1
+            if r == len(M):
+                break
+        free = [c for c in range(n) if c not in piv]
+        basis = []
+        for fc in free:
+            v = [Fraction(0)] * n
+            v[fc] = Fraction(1)
+            for i, pc in enumerate(piv):
+                v[pc] = -M[i][fc]
+            basis.append(v)
+        return basis
+
+    def point_outside(M1, M2):
+        """A point of {M1 v = 0, v[()] = 1} where some row of M2 is non-zero."""
+        B = nullspace(M1)
+        last = len(coords) - 1
+        w = next((v for v in B if v[last] != 0), None)
+        if w is None:
+            return None     # the system is inconsistent (no solutions at all)
+        w = [x / w[last] for x in w]
+        cands = [w] + [[a + b for a, b in zip(w, v)] for v in B if v[last] == 0]
+        for v in B:
+            if v[last] != 0 and v is not w:
+                cands.append([x / v[last] for x in v])
+        for v in cands:
+            if any(sum(a * b for a, b in zip(row, v)) != 0 for row in M2):
+                return v
+        return None
+    MD, ME = [vec(d) for d in D], [vec(e) for e in E]
+    last = len(coords) - 1
+    if not any(v[last] != 0 for v in nullspace(MD)) or not any(v[last] != 0 for v in nullspace(ME)):
+        return None     # a system without solutions: not judged here
+    blocked = False
+    for M1, M2, which in ((MD, ME, "before holds, after does not"), (ME, MD, "after holds, before does not")):
+        v = point_outside(M1, M2)
+        if v is None:
+            continue
+        env = {}
+        for m, x in zip(coords[:-1], v[:-1]):
+            env[m[0][0]] = float(x)
+        try:
+            if ok is not None and not ok(env):
+                blocked = True
+                continue
+        except Exception:
+            blocked = True
+            continue
+        w = {A.term_str(k): float(round(x, 9)) for k, x in env.items()}
+        w["note"] = which
+        return {"verdict": "differ", "equation": True, "why": "solution sets of the chained equation differ", "witness": w}
+    if blocked:
+        return None
+    # every generator of each solution set satisfies the other system
+    return {"verdict": "equal", "equation": True, "unit": "chain: equivalent linear systems"}
 
 
 def _known_nonzero(it: Interp, s) -> bool:
